@@ -85,15 +85,28 @@ Inductive run_out :=
 
 Record settings := { file_insertion_enabled : bool; has_sphinx_env : bool }.
 
+(* include_arg.startswith("<") and include_arg.endswith(">"): the docutils "standard include"
+   spelling; include_arg[1:-1] is joined onto Include.standard_include_path - an absolute path
+   or "../" inside the brackets reaches any file *)
+Definition is_standard_arg (arg : str) : bool :=
+  startswith arg [60] && endswith arg [62].
+Definition standard_inner (arg : str) : str := removelast (tl arg).
+
 (* MockIncludeDirective.run up to the point where it has the file's text.
-   fs: path -> content (None: FileNotFoundError); resolve: argument -> path *)
+   fs: path -> content (None: FileNotFoundError); resolve: ordinary argument -> path
+   (source_dir.joinpath, Sphinx relfn2path); resolve_std: inner of <...> -> path
+   (Path(standard_include_path).joinpath) *)
+Definition include_path (arg : str) (resolve resolve_std : str -> str) : str :=
+  if is_standard_arg arg then resolve_std (standard_inner arg) else resolve arg.
+
 Definition include_run_prefix (st : settings) (name arg : str)
-    (resolve : str -> str) (fs : str -> option str) : run_out * list fs_event :=
+    (resolve resolve_std : str -> str) (fs : str -> option str) : run_out * list fs_event :=
   if negb (file_insertion_enabled st) then
     (RError 2 name, [])                                      (* Directive "<name>" disabled. *)
   else
-    let path := resolve arg in
-    let t1 := (if has_sphinx_env st then [FsResolve arg] else []) ++ [FsDepend path] in
+    let path := include_path arg resolve resolve_std in
+    let t1 := (if has_sphinx_env st && negb (is_standard_arg arg) then [FsResolve arg] else [])
+              ++ [FsDepend path] in
     match fs path with
     | None => (RError 4 path, t1 ++ [FsRead path])           (* file not found *)
     | Some text => (RNodes text, t1 ++ [FsRead path])
@@ -102,9 +115,9 @@ Definition include_run_prefix (st : settings) (name arg : str)
 (* run_directive around it: a DirectiveError becomes a system_message holding the directive's
    content; the registries are untouched *)
 Definition include_directive (st : settings) (name arg content : str)
-    (resolve : str -> str) (fs : str -> option str)
+    (resolve resolve_std : str -> str) (fs : str -> option str)
     (render_text : str -> list dnode) : list dnode * list fs_event :=
-  match include_run_prefix st name arg resolve fs with
+  match include_run_prefix st name arg resolve resolve_std fs with
   | (RError level msg, tr) => ([DNode (KSysMsg level) msg [DNode (KElem 0) content []]], tr)
   | (RNodes text, tr) => (render_text text, tr)
   end.
@@ -118,6 +131,7 @@ Section Doc.
   Variable render_other : N -> regs -> list dnode * regs.
   Variable render_text : str -> regs -> list dnode * regs.
   Variable resolve : str -> str.
+  Variable resolve_std : str -> str.
   Variable fs : str -> option str.
 
   Fixpoint render_blocks (st : settings) (bs : list block) (r : regs)
@@ -129,7 +143,7 @@ Section Doc.
         let '(ms, r2, tr) := render_blocks st rest r1 in
         (ns ++ ms, r2, tr)
     | BInclude name arg content :: rest =>
-        match include_run_prefix st name arg resolve fs with
+        match include_run_prefix st name arg resolve resolve_std fs with
         | (RError level msg, tr0) =>
             let '(ms, r2, tr) := render_blocks st rest r in
             (DNode (KSysMsg level) msg [DNode (KElem 0) content []] :: ms, r2, tr0 ++ tr)
